@@ -356,6 +356,18 @@ def m_builtin_minmax(kind):
 
 def m_asarray(x, *a, **k):
     if isinstance(x, (A, S)):
+        dt = k.get("dtype", a[0] if a else None)
+        if dt is not None:
+            # the value is unchanged in the real-arithmetic reading; a conversion to a narrower floating type (or to an integer type) is
+            # recorded as an effect so that a contract can forbid it on the way into a result (it is not silently dropped)
+            try:
+                d_ = np.dtype(dt)
+                if d_.kind in "iu":
+                    raise Unsupported("np.asarray(..., dtype=%s): conversion to an integer type" % d_)
+                if d_.kind == "f" and d_.itemsize < 8:
+                    Hooks.effect("cast", x, str(d_))
+            except TypeError:
+                raise Unsupported("np.asarray with dtype %r" % (dt,))
         return x  # alias, like np.asarray on an ndarray
     raise Unsupported("np.asarray of %r" % type(x))
 
